@@ -5,6 +5,7 @@ worker and only the (plain-data) result comes back.  Falls back to a serial loop
 """
 from __future__ import annotations
 
+import gc
 import multiprocessing
 import os
 from typing import Any, Callable, List, Sequence
@@ -19,13 +20,18 @@ def _call(i: int) -> Any:
 
 def pmap(fn: Callable[[Any], Any], items: Sequence[Any], jobs: int = 0) -> List[Any]:
     global _FN, _ITEMS
-    jobs = jobs or min(12, os.cpu_count() or 1)
+    # serial unless asked otherwise: in this sandbox forked workers that churn memory run slower in total than one process (page-fault cost under contention)
+    jobs = jobs or int(os.environ.get("VERIF_JOBS", 0)) or 1
     if jobs <= 1 or len(items) < 4 or os.environ.get("VERIF_SERIAL"):
         return [fn(x) for x in items]
     _FN, _ITEMS = fn, items
+    # the indexed program is a large heap of small objects: keep the collector from touching (and so copying) every page of it in each forked worker
+    gc.collect()
+    gc.freeze()
     try:
         ctx = multiprocessing.get_context("fork")
-        with ctx.Pool(min(jobs, len(items))) as pool:
+        with ctx.Pool(min(jobs, len(items)), initializer=gc.disable) as pool:
             return pool.map(_call, range(len(items)), chunksize=1)
     finally:
+        gc.unfreeze()
         _FN, _ITEMS = None, ()
